@@ -112,6 +112,30 @@ pub struct Scenario {
     /// the peer = 4 KiB); TLS: the peer also reads slowly (4 KiB per virtual millisecond), so that a
     /// large request meets a full socket
     pub slow_peer: bool,
+    /// SSH only: what the server does while the connection is being set up
+    pub ssh_setup: SshSetup,
+    /// after issuing its requests the client calls close() and drops the reply future it returns
+    /// (which owns the session) without polling it; the outstanding requests are then awaited
+    pub abandon_close: bool,
+}
+
+/// SSH server behaviour before the NETCONF subsystem runs
+#[derive(Clone, Copy, Debug, Default, PartialEq, Eq)]
+pub struct SshSetup {
+    /// the answer to the password request is held back for this long (virtual)
+    pub auth_delay_ms: u64,
+    /// instead of confirming the "netconf" subsystem request the server goes away
+    pub at_subsystem: Option<SetupClose>,
+}
+
+#[derive(Clone, Copy, Debug, PartialEq, Eq)]
+pub enum SetupClose {
+    /// CHANNEL_CLOSE for the session channel, the connection stays up
+    ChannelClose,
+    /// CHANNEL_EOF then CHANNEL_CLOSE
+    ChannelEofClose,
+    /// the server's side of the connection ends (the handler fails, russh drops the TCP connection)
+    Disconnect,
 }
 
 #[derive(Clone, Debug, PartialEq, Eq)]
@@ -286,6 +310,7 @@ struct SshShared {
 
 #[derive(Clone)]
 struct SshH {
+    setup: SshSetup,
     password: String,
     ps: Ps,
     sh: Arc<Mutex<SshShared>>,
@@ -296,6 +321,9 @@ struct SshH {
 impl russh::server::Handler for SshH {
     type Error = anyhow::Error;
     async fn auth_password(self, _user: &str, password: &str) -> Result<(Self, russh::server::Auth), Self::Error> {
+        if self.setup.auth_delay_ms > 0 {
+            tokio::time::sleep(Duration::from_millis(self.setup.auth_delay_ms)).await;
+        }
         Ok(if password == self.password { (self, russh::server::Auth::Accept) } else { (self, russh::server::Auth::Reject { proceed_with_methods: None }) })
     }
     async fn channel_open_session(self, channel: russh::Channel<russh::server::Msg>, session: russh::server::Session) -> Result<(Self, bool, russh::server::Session), Self::Error> {
@@ -304,6 +332,19 @@ impl russh::server::Handler for SshH {
         Ok((self, true, session))
     }
     async fn subsystem_request(self, channel: russh::ChannelId, _name: &str, mut session: russh::server::Session) -> Result<(Self, russh::server::Session), Self::Error> {
+        match self.setup.at_subsystem {
+            None => {}
+            Some(SetupClose::ChannelClose) => {
+                session.close(channel);
+                return Ok((self, session));
+            }
+            Some(SetupClose::ChannelEofClose) => {
+                session.eof(channel);
+                session.close(channel);
+                return Ok((self, session));
+            }
+            Some(SetupClose::Disconnect) => return Err(anyhow::anyhow!("the server goes away before answering the subsystem request")),
+        }
         session.channel_success(channel);
         self.sh.lock().unwrap().subsystem = true;
         self.ps.1.notify_waiters();
@@ -364,6 +405,17 @@ enum PeerIo {
 async fn play(steps: Vec<Step>, mut io: PeerIo, ps: Ps, out: Arc<Mutex<Outcome>>, epoch: tokio::time::Instant) -> Result<(), String> {
     for step in steps {
         beat();
+        if let PeerIo::Local(w, _) = &mut io {
+            if CHILD_DEAD.with(std::cell::Cell::get) {
+                if w.is_some() {
+                    out.lock().unwrap().client_messages.push("<peer: the cli process was killed by the client; its pipe ends are closed>".into());
+                }
+                *w = None;
+                if matches!(step, Step::Chunk(_)) {
+                    continue;
+                }
+            }
+        }
         match step {
             Step::Mark(k) => {
                 let t = tokio::time::Instant::now().duration_since(epoch).as_nanos() as u64;
@@ -547,10 +599,15 @@ const REAL_FLOOR: Duration = Duration::from_millis(300);
 
 /// `tokio::time::timeout(WAIT, fut)` with the real-time floor
 async fn patient<F: std::future::Future>(fut: F) -> Result<F::Output, tokio::time::error::Elapsed> {
+    patient_for(Duration::ZERO, fut).await
+}
+
+/// like `patient`, for a call that the scenario itself delays by `extra` of virtual time
+async fn patient_for<F: std::future::Future>(extra: Duration, fut: F) -> Result<F::Output, tokio::time::error::Elapsed> {
     tokio::pin!(fut);
     let real0 = std::time::Instant::now();
     loop {
-        match tokio::time::timeout(WAIT, &mut fut).await {
+        match tokio::time::timeout(WAIT + extra, &mut fut).await {
             Ok(v) => return Ok(v),
             Err(e) if real0.elapsed() >= REAL_FLOOR => return Err(e),
             Err(_) => {
@@ -562,6 +619,12 @@ async fn patient<F: std::future::Future>(fut: F) -> Result<F::Output, tokio::tim
 }
 
 static EPOCH: Mutex<Option<tokio::time::Instant>> = Mutex::new(None);
+
+thread_local! {
+    /// local transport: the helper process standing in for `cli` has died (it was killed): like any
+    /// dead process it no longer holds its pipe ends, so the scripted peer closes the copies it was handed
+    static CHILD_DEAD: std::cell::Cell<bool> = const { std::cell::Cell::new(false) };
+}
 
 async fn client_workload<T>(session: Result<Session<T>, tokio::time::error::Elapsed>, sc: &Scenario, out: &Arc<Mutex<Outcome>>)
 where
@@ -613,6 +676,20 @@ where
                 set(Res::Hang);
             }
         }
+    }
+    if sc.abandon_close {
+        match patient(s.close()).await {
+            Ok(Ok(reply)) => {
+                drop(reply);
+                out.lock().unwrap().client_messages.push("<client: close() returned, its reply future was dropped unpolled>".into());
+            }
+            Ok(Err(e)) => out.lock().unwrap().client_messages.push(format!("<client: close() failed: {e:?}>")),
+            Err(_) => out.lock().unwrap().client_messages.push("<client: close() still pending after 5 s>".into()),
+        }
+        for t in tasks {
+            let _ = t.await;
+        }
+        return;
     }
     for t in tasks {
         let _ = t.await;
@@ -727,7 +804,7 @@ pub fn run_scenario(ctx: &mut Ctx, sc: &Scenario) -> Outcome {
                 cfg.auth_rejection_time = Duration::from_millis(10);
                 cfg.auth_rejection_time_initial = Some(Duration::from_millis(0));
                 let cfg = Arc::new(cfg);
-                let h = SshH { password: sc.password.clone(), ps: ps2.clone(), sh: Arc::default(), keep: Arc::default() };
+                let h = SshH { setup: sc.ssh_setup, password: sc.password.clone(), ps: ps2.clone(), sh: Arc::default(), keep: Arc::default() };
                 let h2 = h.clone();
                 let ps3 = ps2.clone();
                 let out3 = out2.clone();
@@ -759,7 +836,7 @@ pub fn run_scenario(ctx: &mut Ctx, sc: &Scenario) -> Outcome {
                 });
                 let wrong = format!("wrong-{}", sc.password);
                 let password: &str = if sc.bad_credentials { &wrong } else { &sc.password };
-                let session = patient(Session::ssh(addr, "operator".to_string(), password.parse().expect("infallible"))).await;
+                let session = patient_for(Duration::from_millis(sc.ssh_setup.auth_delay_ms), Session::ssh(addr, "operator".to_string(), password.parse().expect("infallible"))).await;
                 match session {
                     Ok(Err(e)) => out2.lock().unwrap().establish = Some(Res::Err(format!("{e:?}").chars().take(200).collect())),
                     Ok(Ok(s)) => client_workload(Ok(s), &sc, &out2).await,
@@ -808,6 +885,10 @@ pub fn run_scenario(ctx: &mut Ctx, sc: &Scenario) -> Outcome {
                         let mut ack = [0u8; 1];
                         let _ = (&sock).read(&mut ack);
                     }
+                    // the helper keeps its end of the socket open for as long as it lives: EOF = it was killed
+                    CHILD_DEAD.with(|c| c.set(false));
+                    sock.set_nonblocking(true).ok();
+                    let life = tokio::net::UnixStream::from_std(sock).map_err(|e| e.to_string())?;
                     let mut rx = tokio::net::unix::pipe::Receiver::from_owned_fd(stdin_r).map_err(|e| e.to_string())?;
                     let tx = tokio::net::unix::pipe::Sender::from_owned_fd(stdout_w).map_err(|e| e.to_string())?;
                     let ps4 = ps3.clone();
@@ -820,8 +901,22 @@ pub fn run_scenario(ctx: &mut Ctx, sc: &Scenario) -> Outcome {
                             }
                         }
                     });
+                    let reader_abort = reader.abort_handle();
+                    let watcher = tokio::spawn(async move {
+                        let mut life = life;
+                        let mut b = [0u8; 8];
+                        loop {
+                            match life.read(&mut b).await {
+                                Ok(0) | Err(_) => break,
+                                Ok(_) => {}
+                            }
+                        }
+                        CHILD_DEAD.with(|c| c.set(true));
+                        reader_abort.abort();
+                    });
                     let r = play(steps, PeerIo::Local(Some(tx), pid), ps3, out3.clone(), epoch).await;
                     reader.abort();
+                    watcher.abort();
                     r
                 };
                 let peer = tokio::spawn(accept);
